@@ -7,15 +7,6 @@ import InToto.Meta
 -/
 namespace InToto
 
-/-- Read a replacement field's name up to the closing `}`. -/
-def readField : Str → Str → Except Err (Str × Str)
-  | [], _ => .error .value                                   -- expected '}' before end of string
-  | '}' :: rest, acc => .ok (acc.reverse, rest)
-  | '{' :: _, _ => .error .value                             -- unexpected '{' in field name
-  | c :: rest, acc =>
-    if c = '!' ∨ c = ':' ∨ c = '.' ∨ c = '[' then .error .other   -- outside the modelled subset
-    else readField rest (c :: acc)
-
 def isDigits (s : Str) : Bool := s.all (fun c => '0' ≤ c ∧ c ≤ '9')
 
 /-- The value a replacement field stands for. -/
@@ -26,28 +17,33 @@ def lookupField (params : Dict Str Str) (name : Str) : Except Err Str :=
     | none => .error .keyError
     | some v => .ok v
 
-/-- `template.format(**params)` on the modelled subset: one left-to-right pass;
-literal text is copied, `{{` / `}}` give a brace, `{name}` gives the supplied
-value **verbatim** (the value is never scanned again). Errors surface in the
-order in which the scan meets them. `fuel` is the template length. -/
-def formatAux (params : Dict Str Str) : Nat → Str → Except Err Str
-  | 0, [] => .ok []
-  | 0, _ :: _ => .error .other
-  | _, [] => .ok []
-  | fuel + 1, '{' :: '{' :: rest => (formatAux params fuel rest).map ('{' :: ·)
-  | fuel + 1, '}' :: '}' :: rest => (formatAux params fuel rest).map ('}' :: ·)
-  | _, '}' :: _ => .error .value                          -- Single '}' encountered
-  | fuel + 1, '{' :: rest =>
-    match readField rest [] with
-    | .error e => .error e
-    | .ok (name, rest') =>
-      match lookupField params name with
-      | .error e => .error e
-      | .ok v => (formatAux params fuel rest').map (v ++ ·)
-  | fuel + 1, c :: rest => (formatAux params fuel rest).map (c :: ·)
+/-- Characters that start a conversion, a format spec, attribute or index
+access inside a replacement field: outside the modelled subset. -/
+def fieldSpecial (c : Char) : Bool := c = '!' || c = ':' || c = '.' || c = '['
 
-def format (params : Dict Str Str) (template : Str) : Except Err Str :=
-  formatAux params template.length template
+/-- `template.format(**params)` on the modelled subset, as one left-to-right
+scan. The second argument is `none` outside a replacement field and `some acc`
+inside one (`acc` = the field name read so far, reversed). Literal text is
+copied, `{{` / `}}` give a brace, `{name}` gives the supplied value **verbatim**:
+the scan continues in the *template* behind the closing brace, the value is never
+scanned. Errors surface in the order in which the scan meets them. -/
+def fmt (params : Dict Str Str) : Str → Option Str → Except Err Str
+  | [], none => .ok []
+  | [], some _ => .error .value                          -- expected '}' before end of string
+  | '{' :: '{' :: rest, none => (fmt params rest none).map ('{' :: ·)
+  | '}' :: '}' :: rest, none => (fmt params rest none).map ('}' :: ·)
+  | '}' :: _, none => .error .value                      -- Single '}' encountered
+  | '{' :: rest, none => fmt params rest (some [])
+  | c :: rest, none => (fmt params rest none).map (c :: ·)
+  | '}' :: rest, some acc =>
+    match lookupField params acc.reverse with
+    | .error e => .error e
+    | .ok v => (fmt params rest none).map (v ++ ·)
+  | '{' :: _, some _ => .error .value                    -- unexpected '{' in field name
+  | c :: rest, some acc =>
+    if fieldSpecial c then .error .other else fmt params rest (some (c :: acc))
+
+def format (params : Dict Str Str) (template : Str) : Except Err Str := fmt params template none
 
 def isParamNameChar (c : Char) : Bool :=
   ('a' ≤ c ∧ c ≤ 'z') ∨ ('A' ≤ c ∧ c ≤ 'Z') ∨ ('0' ≤ c ∧ c ≤ '9') ∨ c = '_' ∨ c = '-'
@@ -55,33 +51,43 @@ def isParamNameChar (c : Char) : Bool :=
 /-- `_check_parameter_dict`: names `[a-zA-Z0-9_-]+`, values strings
 (`none` = a non-string value). -/
 def checkParams (raw : List (Str × Option Str)) : Except Err (Dict Str Str) :=
-  raw.mapM (fun (k, v) =>
-    if k = [] ∨ !k.all isParamNameChar then .error .format
-    else match v with
-      | some s => .ok (k, s)
-      | none => .error .format)
+  mapE (fun (kv : Str × Option Str) =>
+    if kv.1 = [] ∨ !kv.1.all isParamNameChar then .error .format
+    else match kv.2 with
+      | some s => .ok (kv.1, s)
+      | none => .error .format) raw
 
 def substRules (params : Dict Str Str) (rules : List (List Str)) : Except Err (List (List Str)) :=
-  rules.mapM (fun r => r.mapM (format params))
+  mapE (fun r => mapE (format params) r) rules
 
 /-- `argv.format(**params)` for the elements of a command list. -/
 def substCmd (params : Dict Str Str) (cmd : List JVal) : Except Err (List JVal) :=
-  cmd.mapM (fun a =>
+  mapE (fun a =>
     match a with
     | .str s => (format params s).map .str
-    | _ => .error .attribute)
+    | _ => .error .attribute) cmd
 
-def substStep (params : Dict Str Str) (s : Step) : Except Err Step := do
-  let m ← substRules params s.expectedMaterials
-  let p ← substRules params s.expectedProducts
-  let c ← substCmd params s.expectedCommand
-  pure { s with expectedMaterials := m, expectedProducts := p, expectedCommand := c }
+def substStep (params : Dict Str Str) (s : Step) : Except Err Step :=
+  match substRules params s.expectedMaterials with
+  | .error e => .error e
+  | .ok m =>
+    match substRules params s.expectedProducts with
+    | .error e => .error e
+    | .ok p =>
+      match substCmd params s.expectedCommand with
+      | .error e => .error e
+      | .ok c => .ok { s with expectedMaterials := m, expectedProducts := p, expectedCommand := c }
 
-def substInspection (params : Dict Str Str) (i : Inspection) : Except Err Inspection := do
-  let m ← substRules params i.expectedMaterials
-  let p ← substRules params i.expectedProducts
-  let c ← substCmd params i.run
-  pure { i with expectedMaterials := m, expectedProducts := p, run := c }
+def substInspection (params : Dict Str Str) (i : Inspection) : Except Err Inspection :=
+  match substRules params i.expectedMaterials with
+  | .error e => .error e
+  | .ok m =>
+    match substRules params i.expectedProducts with
+    | .error e => .error e
+    | .ok p =>
+      match substCmd params i.run with
+      | .error e => .error e
+      | .ok c => .ok { i with expectedMaterials := m, expectedProducts := p, run := c }
 
 /-- In-place loop over a list: items before the first failure are replaced,
 the failing one and those after it are left as they were. Returns the list as
